@@ -60,20 +60,20 @@ type Term struct {
 }
 
 type termKey struct {
-	op         Op
-	w          int
-	a, b, c    int
-	val        uint64
-	name       string
+	op      Op
+	w       int
+	a, b, c int
+	val     uint64
+	name    string
 }
 
 // TB is a term bank (one per worker; not shared between goroutines).
 type TB struct {
-	tab    map[termKey]*Term
-	nextID int
-	True   *Term
-	False  *Term
-	nvars  int
+	tab      map[termKey]*Term
+	nextID   int
+	True     *Term
+	False    *Term
+	nvars    int
 	varsMemo map[int][]int
 	varTerm  map[int]*Term
 }
@@ -259,6 +259,14 @@ func (tb *TB) Bin(op Op, x, y *Term) *Term {
 		}
 	}
 	switch op {
+	case OpURem:
+		if y.IsConst() && y.val != 0 && y.val&(y.val-1) == 0 {
+			return tb.Bin(OpAnd, x, tb.Const(w, y.val-1))
+		}
+	case OpUDiv:
+		if y.IsConst() && y.val != 0 && y.val&(y.val-1) == 0 {
+			return tb.Bin(OpLShr, x, tb.Const(w, uint64(bits.TrailingZeros64(y.val))))
+		}
 	case OpAdd:
 		if y.IsConst() && y.val == 0 {
 			return x
@@ -283,6 +291,9 @@ func (tb *TB) Bin(op Op, x, y *Term) *Term {
 		}
 		if y.IsConst() && y.val == 1 {
 			return x
+		}
+		if y.IsConst() && y.val&(y.val-1) == 0 {
+			return tb.Bin(OpShl, x, tb.Const(w, uint64(bits.TrailingZeros64(y.val))))
 		}
 	case OpAnd:
 		if y.IsConst() && y.val == 0 {
